@@ -21,6 +21,9 @@ def run(chk):
     r18a(chk, 'R06.e')
     r06f(chk)
     r06g(chk)
+    from .c13 import r13h
+
+    r13h(chk, 'R06.h')
 
 
 def pref_sets(repo):
